@@ -419,11 +419,11 @@ class SchemaGroup(SchemaSet):
                 )
 
             for st, sv in tag_fields.items():
-                if isinstance(sv, SchemaField):
-                    if sv.tag not in fmsg and self.required[sv]:
-                        raise FIXMessageError(
-                            f"fixmessage={groups} missing required field {repr(sv)}"
-                        )
+                # required members are fields and nested groups alike
+                if sv.tag not in fmsg and self.required[sv]:
+                    raise FIXMessageError(
+                        f"fixmessage={groups} missing required field {repr(sv)}"
+                    )
 
     def __repr__(self):
         """Repr."""
@@ -528,7 +528,7 @@ class FIXSchema:
                     # Group also refers to other component, postpone it
                     has_circular_refs = True
                     continue
-                component.add(g, g.required)
+                component.add(g, g.field_required)
 
         if has_circular_refs:
             return None
@@ -655,9 +655,9 @@ class FIXSchema:
             schema_fields.add(fname)
 
             if req:
+                if f.tag not in msg:
+                    raise FIXMessageError(f"Missing required field={repr(f)}")
                 if isinstance(f, SchemaField):
-                    if f.tag not in msg:
-                        raise FIXMessageError(f"Missing required field={repr(f)}")
                     f_val = msg[f.tag]
                     f.validate_value(f_val)
 
@@ -684,9 +684,9 @@ class FIXSchema:
             schema_fields.add(fname)
 
             if req:
-                if isinstance(f, SchemaField):
-                    if f.tag not in msg:
-                        raise FIXMessageError(f"Missing required field={repr(f)}")
+                # required members are fields and groups alike
+                if f.tag not in msg:
+                    raise FIXMessageError(f"Missing required field={repr(f)}")
 
         if "8" in msg:
             self._validate_header(msg)
